@@ -31,13 +31,19 @@ def main():
         try:
             subprocess.run(["git", "-C", wt, "apply", d], check=True)
             res = {}
+            notes = {}
             for p in (ALL if "--all" in sys.argv else PROPS.get(name, ALL)):
                 if only and p not in only:
                     continue
                 r = subprocess.run([os.path.join(ROOT, "check"), p], cwd=ROOT, capture_output=True, text=True,
                                    env=dict(os.environ, VERIF_REPO=wt, VERIF_NO_EVIDENCE="1", VERIF_REPLAY_DIR=os.path.join(wt, ".rp")))
                 res[p] = r.returncode
-            print(json.dumps({"refactor": name, "exit_codes": res, "silent": all(v == 0 for v in res.values())}), flush=True)
+                if r.returncode != 0:
+                    notes[p] = [ln.strip()[:400] for ln in (r.stdout + r.stderr).splitlines() if ln.startswith(("VIOLATION", "  ", "MACHINERY"))][:4]
+                devs = [ln[:200] for ln in r.stdout.splitlines() if ln.startswith("SPEC-DEVIATION")]
+                if devs:
+                    notes.setdefault(p + ":spec-deviation", devs)
+            print(json.dumps({"refactor": name, "exit_codes": res, "silent": all(v == 0 for v in res.values()), "notes": notes}), flush=True)
         finally:
             subprocess.run(["git", "-C", "/repo", "worktree", "remove", "--force", wt])
 
